@@ -116,6 +116,8 @@ pub const CIR_TREE_MAGIC: u32 = 0x2468_ACE0;
 struct Rd<'a> {
     d: &'a [u8],
     be: bool,
+    /// every rule on (what a current writer is held to); off for files some other tool laid out
+    strict: bool,
 }
 
 impl<'a> Rd<'a> {
@@ -275,10 +277,12 @@ fn read_index(r: &Rd, at: u64, what: &str) -> Result<IndexInfo, String> {
     let mut leaf_depths: Vec<usize> = vec![];
     walk_node(r, at + 48, None, 1, &mut ix, &mut leaf_depths, what)?;
     if let Some(d0) = leaf_depths.first() {
-        if leaf_depths.iter().any(|d| d != d0) {
+        // writers build the tree bottom-up (uniform depth); the format itself lets every node say
+        // whether it is a leaf, so a foreign file may hang leaves at different depths
+        if r.strict && leaf_depths.iter().any(|d| d != d0) {
             return Err(format!("{}: leaf nodes at different depths {:?}", what, leaf_depths));
         }
-        ix.levels = *d0;
+        ix.levels = *leaf_depths.iter().max().unwrap();
     }
     // itemCount is checked by the caller once the blocks are decoded: writers in the wild store
     // either the number of leaf items (sections) or the number of records beneath them
@@ -457,7 +461,7 @@ pub fn decode_with(bytes: &[u8], require_end_magic: bool) -> Result<Decoded, Str
         return Err(format!("bad magic {:#x}", m_le));
     };
     let magic = if is_bigwig { BIGWIG_MAGIC } else { BIGBED_MAGIC };
-    let r = Rd { d: bytes, be };
+    let r = Rd { d: bytes, be, strict: require_end_magic };
     let len = bytes.len() as u64;
     let mut d = Decoded {
         is_bigwig,
@@ -674,7 +678,7 @@ pub fn decode_with(bytes: &[u8], require_end_magic: bool) -> Result<Decoded, Str
         let (_, csize) = name_of(l.start_chrom)?;
         let _ = csize;
         let b = block_bytes(&r, l, d.uncompress_buf_size, &mut max_inflated, "main data")?;
-        let rb = Rd { d: &b, be };
+        let rb = Rd { d: &b, be, strict: false };
         if is_bigwig {
             if b.len() < 24 {
                 return Err(format!("bigWig block at {}: shorter than its 24-byte header", l.offset));
@@ -865,7 +869,7 @@ pub fn decode_with(bytes: &[u8], require_end_magic: bool) -> Result<Decoded, Str
             if b.len() % 32 != 0 || b.is_empty() {
                 return Err(format!("{}: block at {} has {} bytes (not a multiple of 32)", what, l.offset, b.len()));
             }
-            let rb = Rd { d: &b, be };
+            let rb = Rd { d: &b, be, strict: false };
             let n = b.len() / 32;
             if n as u64 > ix.items_per_slot as u64 {
                 return Err(format!("{}: block at {} holds {} records, itemsPerSlot {}", what, l.offset, n, ix.items_per_slot));
